@@ -4,11 +4,13 @@ import (
 	"context"
 	"fmt"
 	"github.com/bartossh/Computantis/src/transaction"
+	"google.golang.org/protobuf/proto"
 	"math/rand"
 	"sort"
 	"strings"
 	"sync"
 	"time"
+	"verifharness/svc"
 
 	"github.com/bartossh/Computantis/src/accountant"
 	"github.com/bartossh/Computantis/src/protobufcompiled"
@@ -313,6 +315,14 @@ func c11Judge(w *core.WorkerCtx, net *vnet.Net, t topo, items []c11Item, desc st
 			case "vrx":
 				_, err := net.Nodes[j].Book.ReadVertex(context.Background(), it.hash)
 				held = err == nil
+				// the node's own two second retry ticker may have popped the vertex a moment ago (it is then neither
+				// parked nor admitted yet): give an admission that is under way a bounded moment before judging
+				for k := 0; !held && k < 100; k++ {
+					time.Sleep(2 * time.Millisecond)
+					net.Nodes[j].Book.VerifRetryOne(context.Background())
+					_, err = net.Nodes[j].Book.ReadVertex(context.Background(), it.hash)
+					held = err == nil
+				}
 			default:
 				trxs, _ := net.Nodes[j].Cache.ReadTransactions(net.Users[2].Addr)
 				for _, x := range trxs {
@@ -588,6 +598,61 @@ func c11RunTopology(w *core.WorkerCtx, t topo, rng *rand.Rand, budget int, order
 	}
 }
 
+// c11ConcurrentCopies: the same awaiting transaction reaches one node from several peers at the same moment (handlers
+// run concurrently in a real server). The node forwards it at most once per duplicate-suppression window: every peer
+// that is not listed gets one copy, not one per incoming copy.
+func c11ConcurrentCopies(w *core.WorkerCtx, rng *rand.Rand) {
+	r := w.R
+	rig, err := svc.New(4, 60, 4096)
+	if err != nil {
+		r.Inconc("cannot build the node: " + err.Error())
+		return
+	}
+	defer rig.Close()
+	ctx := context.Background()
+	rounds := w.Pick(4000, 40000)
+	for i := 0; i < rounds; i++ {
+		tr := ledger.ForgeTrx(rig.Users[1], rig.Users[2].Addr, fmt.Sprintf("concurrent copies %d", i), []byte("contract"), spice.Melange{}, time.Now().Add(-time.Minute))
+		pt, err := transformers.TrxToProtoTrx(tr)
+		if err != nil {
+			continue
+		}
+		copies := 2 + rng.Intn(5)
+		var wg sync.WaitGroup
+		start := make(chan struct{})
+		for c := 0; c < copies; c++ {
+			wg.Add(1)
+			go func() {
+				defer wg.Done()
+				<-start
+				rig.Gossip.GossipTrx(ctx, &protobufcompiled.TrxMsgGossip{Trx: proto.Clone(pt).(*protobufcompiled.Transaction)})
+			}()
+		}
+		close(start)
+		wg.Wait()
+		r.Eval(1)
+		r.Count("c11_concurrent_copy_rounds", 1)
+		for pi, p := range rig.Peers {
+			if n := p.TrxCopies(pt.Hash); n > 1 {
+				r.Violate("C11", "forwarded-twice-to-one-peer/concurrent-copies", fmt.Sprintf("%d copies of awaiting transaction %x arrived at the same moment: peer %d was sent it %d times", copies, pt.Hash[:4], pi, n), nil)
+			}
+		}
+		trxs, _ := rig.Cache.ReadTransactions(rig.Users[2].Addr)
+		listed := 0
+		for _, a := range trxs {
+			if a.Hash == tr.Hash {
+				listed++
+			}
+		}
+		if listed != 1 {
+			r.Violate("C11", "awaiting-transaction-listed-twice/concurrent-copies", fmt.Sprintf("%d concurrent copies: the transaction is listed %d times", copies, listed), nil)
+		}
+		// keep the lists short
+		rig.Cache.RemoveAwaitedTransaction(tr.Hash, rig.Users[2].Addr)
+	}
+	r.Nontriv("concurrent-copies")
+}
+
 // c11SmallCacheRelay: line A-B-C; the relay B runs with a much smaller awaiting cache than the others (a deployment
 // choice), so a large contract does not fit it. B cannot hold the contract, but it has verified it: C, which has no
 // other path, must still get it.
@@ -697,6 +762,9 @@ func c11Worker(w *core.WorkerCtx) {
 	}
 	if w.Batch == 1 {
 		c11SmallCacheRelay(w, core.Rand(w.Seed, "C11cache", w.Batch))
+	}
+	if w.Batch == 2 {
+		c11ConcurrentCopies(w, core.Rand(w.Seed, "C11conc", w.Batch))
 	}
 	// the 9 small graphs are spread over the batches; larger graphs are sampled
 	for ti, t := range smallTopos {
